@@ -686,21 +686,21 @@ def newsvendor_with_additive_yield_uncertainty(holding_cost, stockout_cost, dema
 			# Other yield distribution.
 			base_stock_level = demand - yield_distribution.ppf(crit_ratio)
 
-		# Calculate R.
-		R = demand - base_stock_level
+	# Calculate R.
+	R = demand - base_stock_level
 
-		# Calculate loss functions.
-		if yield_mean is not None and yield_sd is not None:
-			n, n_bar = normal_loss(R, yield_mean, yield_sd)
+	# Calculate loss functions.
+	if yield_mean is not None and yield_sd is not None:
+		n, n_bar = normal_loss(R, yield_mean, yield_sd)
+	else:
+		# Is loss function provided?
+		if loss_function is not None:
+			n, n_bar = loss_function(R)
 		else:
-			# Is loss function provided?
-			if loss_function is not None:
-				n, n_bar = loss_function(R)
+			if is_discrete_distribution(yield_distribution):
+				n, n_bar = discrete_loss(R, yield_distribution)
 			else:
-				if is_discrete_distribution(yield_distribution):
-					n, n_bar = discrete_loss(R, yield_distribution)
-				else:
-					n, n_bar = continuous_loss(R, yield_distribution)
+				n, n_bar = continuous_loss(R, yield_distribution)
 
 	# Calculate cost.
 	cost = stockout_cost * n_bar + holding_cost * n
